@@ -396,7 +396,108 @@ func checkCondProtocol(c *Ctx, r *Result, lfs *LockFlows, rule string, filter fu
 					c.FuncKey(op.Fn), fieldsString(dec), op.Path, op.Kind)})
 			continue
 		}
-		r.Instance(rule+"-S", site, pos, "ok", fmt.Sprintf("%s; %d update(s) of decision locations precede it", why, dominating), true)
+		// (P) the signal announces something the waiters look at: when the signalling function
+		// writes fields of the cond's owner before the signal, at least one of them is a
+		// decision location
+		if dominating == 0 {
+			var owner *types.Named
+			if ld, ok := op.Recv.(*ssa.UnOp); ok {
+				if fa, ok := ld.X.(*ssa.FieldAddr); ok {
+					owner = namedOf(fa.X.Type())
+				}
+			}
+			var others []string
+			for _, in := range all {
+				fa, ok := in.(*ssa.FieldAddr)
+				if !ok || owner == nil || namedOf(fa.X.Type()) != owner || !dominates(in, op.Instr) {
+					continue
+				}
+				f := fieldVar(fa)
+				if f == nil || dec[f] != nil || isLockType(f.Type()) || isNamed(f.Type(), "sync", "Cond") {
+					continue
+				}
+				for _, ref := range *fa.Referrers() {
+					if st, ok := ref.(*ssa.Store); ok && st.Addr == ssa.Value(fa) {
+						others = append(others, f.Name())
+					}
+				}
+			}
+			if len(others) > 0 {
+				sort.Strings(others)
+				r.Instance(rule+"-P", site, pos, "finding", "signal after an update the predicate does not read", true)
+				r.Report(Finding{Rule: rule + "-P", Site: site, Pos: pos,
+					Msg: fmt.Sprintf("%s: before %s.%s() the function updates %s, but the waiters' predicate reads only (%s): a waiter woken by this signal re-checks a predicate that did not change and sleeps again — the announced change is never acted on",
+						c.FuncKey(op.Fn), op.Path, op.Kind, strings.Join(dedup(others), ","), fieldsString(dec))})
+				continue
+			}
+		}
+		// (U) every path from an update that this signal announces to the function's exit passes
+		// a signal of the same cond
+		missed := ""
+		for _, in := range all {
+			if in == op.Instr || !dominates(in, op.Instr) {
+				continue
+			}
+			ft := fieldTouches(c, []ssa.Instruction{in}, 2, condFieldsSkip(op.Recv))
+			upd := false
+			for f, t := range ft {
+				d := dec[f]
+				if d == nil {
+					continue
+				}
+				if t.Write {
+					upd = true
+				}
+				for m := range t.Methods {
+					if !d.Methods[m] {
+						upd = true
+					}
+				}
+			}
+			if !upd {
+				continue
+			}
+			// search forward from `in` avoiding signals of this cond
+			isSig := map[ssa.Instruction]bool{}
+			for _, op2 := range ops {
+				if op2.Fn == op.Fn && op2.Kind != "Wait" && op2.Class == op.Class {
+					isSig[op2.Instr] = true
+				}
+			}
+			seenB := map[*ssa.BasicBlock]bool{}
+			var escape func(b *ssa.BasicBlock, from int) bool
+			escape = func(b *ssa.BasicBlock, from int) bool {
+				for i := from; i < len(b.Instrs); i++ {
+					if isSig[b.Instrs[i]] {
+						return false
+					}
+					if _, isRet := b.Instrs[i].(*ssa.Return); isRet && b != op.Fn.Recover {
+						return true
+					}
+				}
+				for _, s := range b.Succs {
+					if seenB[s] {
+						continue
+					}
+					seenB[s] = true
+					if escape(s, 0) {
+						return true
+					}
+				}
+				return false
+			}
+			if escape(in.Block(), instrIndex(in)+1) {
+				missed = c.Pos(c.InstrPos(in))
+			}
+		}
+		if missed != "" {
+			r.Instance(rule+"-U", site, pos, "finding", "a path from the update to the exit skips the signal", true)
+			r.Report(Finding{Rule: rule + "-U", Site: site, Pos: pos,
+				Msg: fmt.Sprintf("%s: the update of the waiters' decision locations at %s is announced by %s.%s() on some paths only — on another path the function returns without signalling, and a waiter that checked before the update sleeps although there is work (lost wake-up)",
+					c.FuncKey(op.Fn), missed, op.Path, op.Kind)})
+			continue
+		}
+		r.Instance(rule+"-S", site, pos, "ok", fmt.Sprintf("%s; %d update(s) of decision locations precede it, each followed by a signal on every path", why, dominating), true)
 	}
 
 	// decision locations are written somewhere in the module
